@@ -101,8 +101,19 @@ HistCases(cl) ==
     {[op |-> "seq", seq |-> [k \in 1..3 |-> Exch(cl, HistArgs(fc, k), HistReply(cl, fc, k),
                                                    <<Chunk(4), Chunk(Len(HistReply(cl, fc, k)) - 4)>>, "none", 0, 0)]] : fc \in {1, 3}}
 
+\* clients created with a zero-valued configuration: the library's default timeouts must let a complete reply through
+\* (C07) and end a stalled exchange with the client error (C08)
+DefArgs == Args(3, 1, 10, 2, <<>>, <<>>, 0, 4660)
+WithDefaults(x) == [op |-> "exch", client |-> x.client, req |-> x.req, reply |-> x.reply, script |-> x.script, fault |-> x.fault,
+                    hooks |-> x.hooks, pair |-> x.pair, defaults |-> 1]
+DefaultBenign(z) ==
+    {WithDefaults(Exch(cl, DefArgs, ReplyTo(FramingOf(cl), DefArgs, <<1, 0>>), WithEmpties(ChunkScript(Len(ReplyTo(FramingOf(cl), DefArgs, <<1, 0>>)), {3, 7}), "deadline", 1), "none", 0, 0)) :
+        cl \in Clients}
+DefaultStall(z) ==
+    {WithDefaults(Exch(cl, DefArgs, ReplyTo(FramingOf(cl), DefArgs, <<1, 0>>), <<Chunk(3)>>, "stall", 0, 0)) : cl \in Clients}
+
 C07Cases(z) ==
-    (IF Part = 0 THEN UNION {HistCases(cl) : cl \in Clients} ELSE {}) \cup
+    (IF Part = 0 THEN UNION {HistCases(cl) : cl \in Clients} \cup DefaultBenign(0) ELSE {}) \cup
     UNION {UNION {Benign(cl, a, ReplyTo(FramingOf(cl), a, v)) : v \in (IF a.fc = 17 THEN F17Variants ELSE {<<1, 0>>})} :
               cl \in Clients, a \in {x \in ReqShapes("s") : InPart(x.fc + 3)}}
     \cup UNION {Benign(cl, a, ReplyTo(FramingOf(cl), a, <<2, 2>>)) : cl \in Clients, a \in {x \in ReqShapes("m") : x.fc \in {1, 2, 3, 4, 23} /\ InPart(x.fc)}}
@@ -166,7 +177,7 @@ SeqCases(cl) ==
              ELSE {[op |-> "seq", seq |-> <<nc, nc, ok, ok>>], [op |-> "seq", seq |-> <<nc, ok, ok>>]})
 
 C08Cases(z) ==
-    UNION {SeqCases(cl) : cl \in Clients} \cup
+    UNION {SeqCases(cl) : cl \in Clients} \cup DefaultStall(0) \cup
     UNION {FaultCases(cl, a, ReplyTo(FramingOf(cl), a, <<2, 2>>)) : cl \in Clients, a \in ReqShapes("s")}
     \cup UNION {FaultCases(cl, a, ReplyTo(FramingOf(cl), a, <<100, 100>>)) : cl \in Clients, a \in {x \in ReqShapes("l") : x.fc \in {1, 3}}}
     \cup UNION {FaultCases(cl, a, ExcReplyTo(FramingOf(cl), a, 2)) : cl \in Clients, a \in {x \in ReqShapes("s") : x.fc \in {3, 17, 23}}}
